@@ -95,6 +95,10 @@ def check_watch(prop, tier, seed):
             plans.append(("memkv", "two racing creates over a tombstone / a missing key under a watch",
                           dict(W_CONSTS, SubCap=10, CacheSize=10, Keys={1}, Writers={"c1", "c2"}, OpsPer=1, InitStates={"deleted", "none", "compacted"},
                                FixedOps="<- MCCreateOnly", WatchStarts={999, 4}, WatchPrefixes={0}, AtomicWrites=False), 300, ["-cache", "10", "-seqdetail"], 8))
+            plans.append(("memkv", "a delete with unknown outcome, its repair and a compaction request under a watch",
+                          dict(W_CONSTS, SubCap=10, CacheSize=10, Keys={1}, Writers={"c1"}, OpsPer=1, InitStates={"live", "live2"}, FixedOps="<- MCDeleteOnly",
+                               WatchStarts={4}, WatchPrefixes={0}, FaultKinds={"unka", "unkn"}, FaultBudget=1, Compactors={"k1"}, CompactRevs={0, 4},
+                               MaxCompacts=1, AtomicWrites=False, LateCompact=True), 400, ["-cache", "10", "-seqdetail"], 8))
             plans.append(("memkv", "unknown outcomes, repair and a compaction request under a watch from the first revision",
                           dict(W_CONSTS, SubCap=10, CacheSize=10, Keys={1}, Writers={"c1", "c2"}, OpsPer=1, InitStates={"none", "live", "deleted"}, ExpSet={0, 1, 4},
                                WatchStarts={4}, WatchPrefixes={0}, FaultKinds={"err", "unka", "unkn"}, FaultBudget=2, Compactors={"k1"}, CompactRevs={0, 4},
